@@ -363,7 +363,7 @@ fn run_stream_enumeration(
         }
     };
     let sh = hash64(&(&case.syms, case.style, &case.payload));
-    let mut try_cuts = |acc: &mut Acc, cuts: &[usize], class: &str| {
+    let try_cuts = |acc: &mut Acc, cuts: &[usize], class: &str| {
         let nt = cut_is_nontrivial(&st, &r, cuts, total);
         acc.case(if nt { Some(hash64(&(sh, cuts))) } else { None });
         acc.class(class);
